@@ -391,4 +391,249 @@ theorem goZxyLoop_spec (k x y acc : Nat) (hk : k ≤ 31) (hx : x < M32) (hy : y 
     obtain ⟨hp1, hp2, hpr⟩ := hrot _ rfl
     rw [ih _ _ _ (by omega) hp1 hp2 (by omega)]
     rw [hpr, Nat.add_assoc]
-#print axioms goZxyLoop_spec
+
+/-! ## Go-faithful IDToZxy loop:  for a = 0 .. z-1 (ascending), consuming base-4 digits of t low to high -/
+def goIdLoop : Nat → Nat → Nat → Nat → Nat → Nat × Nat   -- remaining, a, t, tx, ty
+  | 0, _, _, tx, ty => (tx, ty)
+  | n+1, a, t, tx, ty =>
+    let s := 2^a                                -- uint32(1) << a,  a ≤ 30
+    let rx := 1 &&& ((t % M32) >>> 1)           -- 1 & (uint32(t) >> 1)
+    let ry := 1 &&& ((t % M32) ^^^ rx)          -- 1 & (uint32(t) ^ rx)
+    let p := goRotate s tx ty rx ry
+    goIdLoop n (a+1) (t >>> 2) ((p.1 + rx <<< a) % M32) ((p.2 + ry <<< a) % M32)
+
+theorem and_one (x : Nat) : 1 &&& x = x % 2 := by
+  rw [Nat.and_comm]; exact Nat.and_one_is_mod x
+
+theorem xor_mod_two (a b : Nat) : (a ^^^ b) % 2 = (a % 2 + b % 2) % 2 := by
+  have h := Nat.testBit_xor a b 0
+  simp only [Nat.testBit_zero] at h
+  have ha : a % 2 = 0 ∨ a % 2 = 1 := by omega
+  have hb : b % 2 = 0 ∨ b % 2 = 1 := by omega
+  have hc : (a ^^^ b) % 2 = 0 ∨ (a ^^^ b) % 2 = 1 := by omega
+  rcases ha with ha | ha <;> rcases hb with hb | hb <;> rcases hc with hc | hc <;> simp [ha, hb, hc] at h ⊢
+
+theorem digit_bits (t : Nat) :
+    let rx := 1 &&& ((t % M32) >>> 1)
+    let ry := 1 &&& ((t % M32) ^^^ rx)
+    rx = t / 2 % 2 ∧ ry = (t % 2 + t / 2 % 2) % 2 ∧ t % 4 = digit rx ry := by
+  simp only [and_one, Nat.shiftRight_eq_div_pow]
+  have h1 : t % M32 / 2 ^ 1 % 2 = t / 2 % 2 := by unfold M32; omega
+  rw [h1]
+  have hb : t / 2 % 2 = 0 ∨ t / 2 % 2 = 1 := by omega
+  have hx : (t % M32 ^^^ (t / 2 % 2)) % 2 = (t % 2 + t / 2 % 2) % 2 := by
+    rw [xor_mod_two]
+    have : t % M32 % 2 = t % 2 := by unfold M32; omega
+    rw [this, Nat.mod_mod]
+  refine ⟨rfl, hx, ?_⟩
+  rw [hx]
+  have h0 : t % 2 = 0 ∨ t % 2 = 1 := by omega
+  have h4 : t % 4 = t % 2 + 2 * (t / 2 % 2) := by omega
+  rcases hb with hb | hb <;> rcases h0 with h0 | h0 <;> rw [h4, hb, h0] <;> decide
+
+theorem goRotate_small (s a b rx ry : Nat) (hs : 0 < s) (hsm : s ≤ M32) (ha : a < s) (hb : b < s)
+    (hrx : rx < 2) :
+    goRotate s a b rx ry = rot s rx ry (a, b) := by
+  unfold goRotate rot
+  have hrx' : rx = 0 ∨ rx = 1 := by omega
+  by_cases hry : ry = 0
+  · rcases hrx' with rfl | rfl
+    · simp [hry]
+    · simp only [hry, if_true, ne_eq, Nat.succ_ne_zero, not_false_eq_true]
+      have e1 : (s - 1 + M32 - b) % M32 = s - 1 - b := by
+        have : s - 1 + M32 - b = (s - 1 - b) + M32 := by omega
+        rw [this, Nat.add_mod_right]; exact Nat.mod_eq_of_lt (by omega)
+      have e2 : (s - 1 + M32 - a) % M32 = s - 1 - a := by
+        have : s - 1 + M32 - a = (s - 1 - a) + M32 := by omega
+        rw [this, Nat.add_mod_right]; exact Nat.mod_eq_of_lt (by omega)
+      simp [e1, e2]
+  · simp [hry]
+
+/-- the ascending loop computes H: invariant (tx,ty) = H a (t_orig mod 4^a) -/
+theorem goIdLoop_spec (n a t0 : Nat) (ha : a + n ≤ 31) :
+    goIdLoop n a (t0 / 4^a) (H a (t0 % 4^a)).1 (H a (t0 % 4^a)).2 = H (a+n) (t0 % 4^(a+n)) := by
+  induction n generalizing a with
+  | zero => simp [goIdLoop]
+  | succ n ih =>
+    have h4 : 0 < 4^a := Nat.pow_pos (by decide)
+    have hp : 0 < 2^a := Nat.pow_pos (by decide)
+    have hlt := H_lt a (t0 % 4^a) (Nat.mod_lt _ h4)
+    simp only [goIdLoop]
+    obtain ⟨hrx, hry, hdig⟩ := digit_bits (t0 / 4^a)
+    generalize hrxd : 1 &&& ((t0 / 4^a % M32) >>> 1) = rx at *
+    generalize hryd : 1 &&& ((t0 / 4^a % M32) ^^^ rx) = ry at *
+    have hrx2 : rx < 2 := by omega
+    have hry2 : ry < 2 := by omega
+    have hsm : 2^a ≤ M32 := by unfold M32; exact Nat.pow_le_pow_right (by decide) (by omega)
+    rw [goRotate_small (2^a) _ _ rx ry hp hsm hlt.1 hlt.2 hrx2]
+    -- next state equals H (a+1) (t0 % 4^(a+1))
+    have hnext : t0 % 4^(a+1) = (t0 / 4^a % 4) * 4^a + t0 % 4^a := by
+      rw [Nat.pow_succ, Nat.mod_mul, Nat.mul_comm]; omega
+    have hH : H (a+1) (t0 % 4^(a+1)) = place (2^a) (digit rx ry) (H a (t0 % 4^a)) := by
+      rw [hnext, H_succ a _ _ (Nat.mod_lt _ h4), hdig]
+    have hshift : (t0 / 4^a) >>> 2 = t0 / 4^(a+1) := by
+      rw [Nat.shiftRight_eq_div_pow, Nat.div_div_eq_div_mul, Nat.pow_succ]; rfl
+    have hstep : ((rot (2^a) rx ry (H a (t0 % 4^a))).1 + rx <<< a) % M32 = (H (a+1) (t0 % 4^(a+1))).1 ∧
+                 ((rot (2^a) rx ry (H a (t0 % 4^a))).2 + ry <<< a) % M32 = (H (a+1) (t0 % 4^(a+1))).2 := by
+      rw [hH]
+      generalize H a (t0 % 4^a) = p at hlt
+      obtain ⟨u, v⟩ := p
+      simp only at hlt
+      have h31 : 2 * 2^a ≤ M32 := by
+        have : 2^(a+1) ≤ 2^32 := Nat.pow_le_pow_right (by decide) (by omega)
+        rw [Nat.pow_succ] at this; unfold M32; omega
+      have hrx' : rx = 0 ∨ rx = 1 := by omega
+      have hry' : ry = 0 ∨ ry = 1 := by omega
+      simp only [Nat.shiftLeft_eq]
+      rcases hrx' with rfl | rfl <;> rcases hry' with rfl | rfl
+      · have : digit 0 0 = 0 := by decide
+        simp only [this, rot, place]
+        try simp
+        constructor <;> (apply Nat.mod_eq_of_lt; omega)
+      · have : digit 0 1 = 1 := by decide
+        simp only [this, rot, place]
+        try simp
+        constructor <;> (apply Nat.mod_eq_of_lt; omega)
+      · have : digit 1 0 = 3 := by decide
+        simp only [this, rot, place]
+        try simp
+        constructor
+        · rw [Nat.mod_eq_of_lt (by omega)]; omega
+        · apply Nat.mod_eq_of_lt; omega
+      · have : digit 1 1 = 2 := by decide
+        simp only [this, rot, place]
+        try simp
+        constructor <;> (apply Nat.mod_eq_of_lt; omega)
+    rw [hshift]
+    have heta : ((H a (t0 % 4^a)).fst, (H a (t0 % 4^a)).snd) = H a (t0 % 4^a) := rfl
+    rw [heta, hstep.1, hstep.2]
+    have := ih (a+1) (by omega)
+    rw [show a + 1 + n = a + (n+1) by omega] at this
+    exact this
+#print axioms goIdLoop_spec
+
+/-! ## top level: base, zoom from bit length, the three exported functions -/
+def base (z : Nat) : Nat := (4^z - 1) / 3
+
+theorem three_base (z : Nat) : 3 * base z + 1 = 4^z := by
+  unfold base
+  have h : 4^z % 3 = 1 := by
+    induction z with
+    | zero => rfl
+    | succ z ih => rw [Nat.pow_succ, Nat.mul_mod, ih]
+  have hp : 0 < 4^z := Nat.pow_pos (by decide)
+  omega
+
+theorem base_succ (z : Nat) : base (z+1) = base z + 4^z := by
+  have h1 := three_base z
+  have h2 := three_base (z+1)
+  rw [Nat.pow_succ] at h2
+  omega
+
+/-- Go: `uint8(bits.Len64(3*i+1)-1) / 2`; `Len64 x - 1 = log2 x` for x > 0 -/
+def goZoom (i : Nat) : Nat := (3 * i + 1).log2 / 2
+
+theorem goZoom_spec (z i : Nat) (h1 : base z ≤ i) (h2 : i < base (z+1)) : goZoom i = z := by
+  unfold goZoom
+  have hb1 := three_base z
+  have hb2 := three_base (z+1)
+  have hlo : 2^(2*z) ≤ 3*i+1 := by
+    rw [Nat.pow_mul]; show 4^z ≤ _; omega
+  have hhi : 3*i+1 < 2^(2*z+2) := by
+    rw [show 2*z+2 = 2*(z+1) by omega, Nat.pow_mul]; show _ < 4^(z+1); omega
+  have hne : 3*i+1 ≠ 0 := by omega
+  have l1 : 2*z ≤ (3*i+1).log2 := (Nat.le_log2 hne).mpr hlo
+  have l2 : (3*i+1).log2 < 2*z+2 := (Nat.log2_lt hne).mpr hhi
+  omega
+
+def goZxyToID' (z x y : Nat) : Nat := goZxyLoop z x y (base z)
+
+def goIDToZxy (i : Nat) : Nat × Nat × Nat :=
+  let z := goZoom i
+  let p := goIdLoop z 0 (i - base z) 0 0
+  (z, p.1, p.2)
+
+def goParentID (i : Nat) : Nat :=
+  let z := goZoom i
+  base (z - 1) + (i - base z) / 4
+
+theorem zxyToID_spec (z x y : Nat) (hz : z ≤ 31) (hx : x < 2^z) (hy : y < 2^z) :
+    goZxyToID' z x y = base z + G z (x, y) := by
+  unfold goZxyToID'
+  have hxm : x < M32 := by
+    have : 2^z ≤ 2^31 := Nat.pow_le_pow_right (by decide) hz
+    unfold M32; omega
+  have hym : y < M32 := by
+    have : 2^z ≤ 2^31 := Nat.pow_le_pow_right (by decide) hz
+    unfold M32; omega
+  have hacc : base z + 4^z ≤ 2^64 := by
+    have := three_base z
+    have : 4^z ≤ 4^31 := Nat.pow_le_pow_right (by decide) hz
+    have e : (4:Nat)^31 = 2^62 := by decide
+    have e2 : (2:Nat)^64 = 4 * 2^62 := by decide
+    omega
+  rw [goZxyLoop_spec z x y (base z) hz hxm hym hacc, Nat.mod_eq_of_lt hx, Nat.mod_eq_of_lt hy]
+
+theorem idToZxy_spec (z i : Nat) (hz : z ≤ 31) (h1 : base z ≤ i) (h2 : i < base (z+1)) :
+    goIDToZxy i = (z, (H z (i - base z)).1, (H z (i - base z)).2) := by
+  unfold goIDToZxy
+  simp only [goZoom_spec z i h1 h2]
+  have ht : i - base z < 4^z := by rw [base_succ] at h2; omega
+  have := goIdLoop_spec z 0 (i - base z) (by omega)
+  simp only [Nat.pow_zero, Nat.div_one, Nat.mod_one, Nat.zero_add] at this
+  have hH0 : H 0 0 = (0, 0) := rfl
+  rw [hH0] at this
+  rw [this, Nat.mod_eq_of_lt ht]
+
+theorem roundtrip_zxy (z x y : Nat) (hz : z ≤ 31) (hx : x < 2^z) (hy : y < 2^z) :
+    goIDToZxy (goZxyToID' z x y) = (z, x, y) := by
+  rw [zxyToID_spec z x y hz hx hy]
+  have hg := G_lt z (x, y)
+  rw [idToZxy_spec z _ hz (by omega) (by rw [base_succ]; omega)]
+  rw [Nat.add_sub_cancel_left, H_G z (x, y) hx hy]
+
+theorem roundtrip_id (z i : Nat) (hz : z ≤ 31) (h1 : base z ≤ i) (h2 : i < base (z+1)) :
+    let r := goIDToZxy i
+    r.1 = z ∧ r.2.1 < 2^z ∧ r.2.2 < 2^z ∧ goZxyToID' r.1 r.2.1 r.2.2 = i := by
+  have ht : i - base z < 4^z := by rw [base_succ] at h2; omega
+  have hlt := H_lt z (i - base z) ht
+  intro r
+  have hr : r = (z, (H z (i - base z)).1, (H z (i - base z)).2) := idToZxy_spec z i hz h1 h2
+  rw [hr]
+  refine ⟨rfl, hlt.1, hlt.2, ?_⟩
+  show goZxyToID' z (H z (i - base z)).1 (H z (i - base z)).2 = i
+  rw [zxyToID_spec z _ _ hz hlt.1 hlt.2]
+  have : ((H z (i - base z)).1, (H z (i - base z)).2) = H z (i - base z) := rfl
+  rw [this, G_H z _ ht]; omega
+
+theorem adjacent (z i : Nat) (hz : z ≤ 31) (h1 : base z ≤ i) (h2 : i + 1 < base (z+1)) :
+    dist1 ((goIDToZxy i).2.1, (goIDToZxy i).2.2) ((goIDToZxy (i+1)).2.1, (goIDToZxy (i+1)).2.2) := by
+  rw [idToZxy_spec z i hz h1 (by omega), idToZxy_spec z (i+1) hz (by omega) h2]
+  have ht : i - base z + 1 < 4^z := by rw [base_succ] at h2; omega
+  have := H_adj z (i - base z) ht
+  rw [show i + 1 - base z = i - base z + 1 by omega]
+  exact this
+
+theorem parent (z x y : Nat) (hz1 : 1 ≤ z) (hz : z ≤ 31) (hx : x < 2^z) (hy : y < 2^z) :
+    goParentID (goZxyToID' z x y) = goZxyToID' (z-1) (x/2) (y/2) := by
+  obtain ⟨k, rfl⟩ : ∃ k, z = k + 1 := ⟨z - 1, by omega⟩
+  have hg := G_lt (k+1) (x, y)
+  have h2k : 2^(k+1) = 2 * 2^k := by rw [Nat.pow_succ]; omega
+  rw [zxyToID_spec (k+1) x y hz hx hy]
+  unfold goParentID
+  simp only [goZoom_spec (k+1) _ (by omega : base (k+1) ≤ base (k+1) + G (k+1) (x, y)) (by rw [base_succ (k+1)]; omega)]
+  simp only [Nat.add_sub_cancel, Nat.add_sub_cancel_left]
+  rw [zxyToID_spec k (x/2) (y/2) (by omega) (by omega) (by omega)]
+  congr 1
+  -- G k (x/2, y/2) = G (k+1) (x,y) / 4  via the hierarchy lemma and the inverse laws
+  have hp := H_parent k (G (k+1) (x, y)) hg
+  rw [H_G (k+1) (x, y) hx hy] at hp
+  simp only at hp
+  have hd : G (k+1) (x, y) / 4 < 4^k := by rw [Nat.pow_succ] at hg; omega
+  have := G_H k (G (k+1) (x, y) / 4) hd
+  rw [← hp] at this
+  exact this.symm
+#print axioms parent
+#print axioms roundtrip_zxy
+#print axioms roundtrip_id
+#print axioms adjacent
